@@ -940,6 +940,15 @@ class STIXObjectProperty(Property):
             # observed-data
             raise ValueError("This property may only contain objects which have an id")
 
+        if self.spec_version == '2.0' \
+                and isinstance(parsed_obj, stix2.v21._STIXBase21):
+            # See above comment regarding spec_version: this is content of a
+            # later version which carries no "spec_version" (an SCO).
+            raise ValueError(
+                "Spec version 2.0 bundles don't yet support "
+                "containing objects of a different spec version.",
+            )
+
         if isinstance(parsed_obj, _STIXBase):
             has_custom = parsed_obj.has_custom
         else:
